@@ -113,6 +113,12 @@ func (l *inMemoryLimiter) getDistrData(bucketIdx int, event *pipeline.Event) (st
 		return fieldVal, idx, limit
 	}
 
+	// The sum of ratios is 1, so the default distribution doesn't exist:
+	// there is nothing to exhaust or to steal for, such events are throttled.
+	if l.limit.distributions.defDistribution.ratio == 0 {
+		return fieldVal, idx, limit
+	}
+
 	// For default distribution check in advance that we are within the limit.
 	// If not, then try to steal reserve from the most free distribution.
 	val := int64(1)
